@@ -116,6 +116,25 @@ CLAIMED = {
          'thorough), not proved.',
          'Trusted: Lean kernel (no axioms: decide +kernel), the extractor harness/extract/reftables.py, SHA-256 for attributes not '
          'exported structurally, pickle.', 'DESIGN.md section 4 C19'),
+ 'C04': ('Lean 4 theorems over Nat (induction over clock advances with an explicit invariant; finite calendar tables by decide) '
+         'about a model of SimParam and the day-type rule, against an independent calendar specification; tied to the real '
+         'SimParam and simulate look-ups by exact integer traces',
+         'Proof: for every valid start date, every timestep dividing an hour and every number of advances inside the year the '
+         'clock fields equal the true non-leap calendar instant and the day type equals the true weekday class (1 Jan = Sunday); '
+         'the constructor accepts exactly the divisors of 3600 and the timestep exception is then unreachable; the year-end state '
+         'is stated exactly. The real SimParam is stepped from all 365 start dates and for all 45 divisors and compared with the '
+         'model and with Python datetime.',
+         'Trusted: Lean kernel (core only), the calendar specification (month lengths), Python datetime as second oracle. '
+         'secDay is a Python float after midnight (exact for these integers).', 'DESIGN.md section 4 C04'),
+ 'C02': ('Lean 4 theorems over Nat giving the closed form of the whole step loop (row index, clock, record trigger, record '
+         'counter, written row and stamp), tied to the real simulate by driver-only execution (physics stubbed) for all 45 timesteps',
+         'Proof: for every hour-dividing timestep, valid start and window inside the year: each step reads row (it*dt-1)/3600, '
+         'record n is taken at it*dt = 3600(n+1) from row n, exactly 24*days records exist with no index error, record n is written '
+         'to the row stamped start+n hours, and the recorded wind is max(rural wind, minimum wind). The float formula replaced by '
+         'the repair is proved wrong at dt=48, it=525. The tie runs the real loop with the physics stubbed for all 45 divisors and '
+         'full real runs incl. write_epw.',
+         'Trusted: Lean kernel (core only); stubbing of the physics in harness/simdriver.py (the physics cannot influence time, '
+         'row selection or recording - checked by un-stubbed runs).', 'DESIGN.md section 4 C02'),
 }
 NOT_YET = 'check not built yet in this session (work in progress; see DESIGN.md section 4)'
 
